@@ -764,6 +764,86 @@ def i_comprehension_chains(c):
     return [f"{w} = [{y} ** 2 for {y} in {src}]", f"{x} = sum({w})", f"print({x}, len({w}))", f"{w}.append(1)", f"print(sum({w}))"]
 
 
+def i_shared_state(c):
+    """Variables shared between scopes: global / nonlocal writes, names read by a function that was defined before a re-assignment."""
+    r = c.r
+    v, f, g = c.name(r.choice(["total", "count", "state"])), c.name("bump"), c.name("peek")
+    k = r.random()
+    if k < 0.3:
+        body = r.choice([[f"{v} = {v} + 1", f"return {v}"], [f"{v} += 1", f"return {v}"], [f"{v} = {v} * 2 + 1", f"return {v}"], [f"{v} = [{v}]", f"return {v}"]])
+        return [f"{v} = {r.randint(0, 3)}", "", "", f"def {f}():"] + ind([f"global {v}"] + body) + ["", "", f"print({f}(), {f}(), {v})"]
+    if k < 0.45:
+        return [f"def {f}():"] + ind([f"global {v}", f"{v} = {r.choice(['1', c.t(), '[1]'])}"]) + ["", "", f"{f}()", f"print({v})"]
+    if k < 0.65:
+        mk = c.name("make")
+        body = r.choice([[f"{v} = {v} + 1", f"return {v}"], [f"{v} += 2", f"return {v}"]])
+        return [f"def {mk}():"] + ind([f"{v} = 0", f"def {f}():"] + ind([f"nonlocal {v}"] + body) + [f"return {f}"]) + ["", "", f"{g} = {mk}()", f"print({g}(), {g}(), {g}())"]
+    if k < 0.85:
+        reader = r.choice([[f"def {g}():"] + ind([f"return {v}"]), [f"{g} = lambda: {v}"], [f"def {g}(extra=0):"] + ind([f"return {v} + extra"])])
+        return [f"{v} = 1"] + reader + [f"print({g}())", f"{v} = {r.choice(['2', c.t(), v + ' + 5'])}", f"print({g}())"]
+    out = c.name("out")
+    return [f"def {f}():"] + ind([f"{v} = 1", f"def {g}():"] + ind([f"return {v}"]) + [f"{out} = [{g}()]", f"{v} = 2", f"{out}.append({g}())", f"return {out}"]) + ["", "", f"print({f}())"]
+
+
+i_shared_state.module_only = True
+
+
+def i_kept_for_effect(c):
+    """Code that looks unused or unreachable and is there for what it does: registering decorators, the dead yield that makes a
+    generator, next() to skip an element, expression statements probing for an exception."""
+    r = c.r
+    k = r.random()
+    a, f = c.name("a"), c.name("fn")
+    if k < 0.25:
+        reg, deco = c.name("registry"), c.name("register")
+        second = r.choice([[], ["", "", f"@{deco}", f"def {f}_b():"] + ind(["return 'b'"])])
+        return [f"{reg} = []", "", "", f"def {deco}(func):"] + ind([f"{reg}.append(func())", "return func"]) + ["", "", f"@{deco}", f"def {f}():"] + ind(["return 'a'"]) + second + \
+            ["", "", f"print(sorted({reg}))"]
+    if k < 0.5:
+        body = r.choice([["return", "yield"], ["if False:", "    yield", "return"], [f"print('gen', {a})", "return", "yield 1"], ["if 0:", "    yield 5"], ["return None", "yield from ()"]])
+        return [f"def {f}({a}):"] + ind(body) + ["", "", f"print(list({f}(3)))"]
+    if k < 0.75:
+        it = c.name("it")
+        skip = r.choice([f"next({it})", f"next({it}, None)", f"{it}.__next__()"])
+        return [f"{it} = iter(['header', 'x', 'y'])", skip, f"print(list({it}))"]
+    probe = r.choice([("d['missing']", "KeyError", "d = {'k': 1}"), ("1 / z", "ZeroDivisionError", "z = 0"), ("o.missing", "AttributeError", "o = object()"), ("int(s)", "ValueError", "s = 'x'"),
+                      ("xs[5]", "IndexError", "xs = [1]"), ("d['k']", "KeyError", "d = {'k': 1}")])
+    return [probe[2], "try:"] + ind([probe[0], "print('no error')"]) + [f"except {probe[1]}:"] + ind(["print('caught')"])
+
+
+def i_descriptors(c):
+    """Methods that do not use self but are called with it all the same (properties), dict literals with repeated keys."""
+    r = c.r
+    if r.random() < 0.35:
+        d = c.name("d")
+        k1, k2 = r.sample(["'a'", "'b'", "1", "2"], 2)
+        items = [f"{k1}: {c.t()}", f"{k2}: {r.choice(['5', c.t()])}", f"{k1}: {r.choice(['6', c.t()])}"]
+        return [f"{d} = {{{', '.join(items)}}}", f"print(sorted({d}.items(), key=str))"]
+    K, p = c.name("Thing").capitalize(), c.name("prop")
+    deco = r.choice(["@property", "@property", "@functools.cached_property"])
+    body = [deco, f"def {p}(self):"] + ind([f"return {r.randint(1, 9)}"])
+    if deco == "@property" and r.random() < 0.5:
+        body += ["", f"@{p}.setter", f"def {p}(self, value):"] + ind(["print('set', value)"])
+    body += ["", f"def plain(self):"] + ind(["return 7"])
+    use = [f"obj = {K}()", f"print(obj.{p}, obj.plain())"]
+    if any(".setter" in l for l in body):
+        use.insert(1, f"obj.{p} = 3")
+    return ["import functools", "", "", f"class {K}:"] + ind(body) + ["", ""] + use
+
+
+def i_repeated_calls_in_conditions(c):
+    """The same call written twice in one condition: each occurrence is evaluated (and may give another value)."""
+    r = c.r
+    it, nx = c.name("it"), c.name("nxt")
+    k = r.random()
+    if k < 0.35:
+        e = r.choice([f"{nx}() == {nx}()", f"{nx}() != {nx}()", f"{nx}() < 3 and {nx}() < 5", f"{nx}() or {nx}()", f"{nx}() and not {nx}()"])
+        return [f"{it} = iter(range(10))", "", "", f"def {nx}():"] + ind([f"return next({it})"]) + ["", "", f"print({e})", f"print({nx}())"]
+    tk = c.t()
+    e = r.choice([f"{tk} == {tk}", f"{tk} > 0 and {tk} > -1", f"{tk} > 5 or {tk} > 7", f"{tk} or {tk}", f"{tk} and {tk}", f"{tk} > 3 or not {tk} > 3", f"{tk} == 1 and {tk} != 0"])
+    return r.choice([[f"print({e})"], [f"if {e}:"] + ind(["print('yes')"]) + ["else:"] + ind(["print('no')"])])
+
+
 IDIOMS = {f.__name__[2:]: f for f in [
     i_list_append_loop, i_dict_loop, i_dict_literal_updates, i_collection_add_update, i_if_return_bool, i_redundant_else, i_swap_if_else, i_early_return, i_early_continue,
     i_filter_map_lambda, i_for_filter, i_comprehension_forms, i_literal_functions, i_unused_and_pointless, i_dead_code, i_singleton_compare, i_boolean_logic, i_staticmethod_class,
@@ -771,6 +851,7 @@ IDIOMS = {f.__name__[2:]: f for f in [
     i_move_before_loop, i_nested_loops, i_logging, i_negated_compare, i_lambda_redundant, i_commented_code, i_while_counter, i_invalid_escape, i_string_ops, i_numpy,
     i_const_iter_loop, i_loop_carried, i_constrained_range, i_effectful_helper, i_multiline_literal_block,
     i_if_control_flow, i_early_continue_forms, i_comprehension_chains,
+    i_shared_state, i_kept_for_effect, i_descriptors, i_repeated_calls_in_conditions,
 ]}
 NEEDS = {"numpy": "numpy"}
 
@@ -794,6 +875,8 @@ def program(seed_parts, n_idioms=None, only=None, style=None, wrap=None):
         mode = wrap or r.choice(["module", "module", "function", "method", "ifmain"])
         if any(l.startswith(("import ", "from ")) for l in lines) and mode in ("method",):
             mode = "function"
+        if getattr(IDIOMS[name], "module_only", False) and not wrap:  # global statements need the module's own variables
+            mode = {"function": "module", "method": "ifmain"}.get(mode, mode)
         if mode == "function":
             fn = c.name("run")
             lines = [f"def {fn}():"] + ind(lines) + ["", "", f"{fn}()"]
